@@ -61,6 +61,10 @@ CHECKS = {
           'paths', 'DESIGN.md section 4 C14',
           'All names up to length 5/6 over a 10-character attack alphabet x both TAG_HASH_FILENAMES x the real WhisperDatabase and CeresDatabase classes, plus generated long attack names; normalised and real paths must stay inside the data directory, mapping deterministic and injective on the documented class; sampled names are really created and the sandbox is swept. One genuine defect (ceres absolute node path) found and fixed.',
           'whisper/ceres libraries replaced by stubs (file creation, documented ceres node mapping).'),
+  'C18': ('exploration', 'property-based testing with exhaustive tag-order permutations; round-trip / idempotence / agreement oracles plus an independent splitter',
+          'tags', 'DESIGN.md section 4 C18',
+          'Generated names and tag sets built from syntax-bearing tokens, rendered in carbon syntax in all permutations and in OpenMetrics syntax; all renderings must normalise to one idempotent form that contains exactly the generated name and tags; rule-violating names must be rejected and stored/relayed unchanged by the real processors. One genuine defect (OpenMetrics dispatch on carbon syntax) found and fixed.',
+          'Strings that are OpenMetrics syntax by shape are read as such; rejected OpenMetrics renderings are outside the comparison.'),
 }
 
 PENDING_REASON = 'check not built yet in this session (design in DESIGN.md section 4); will be claimed once its check is quiet on the unchanged tree and catches its mutants'
